@@ -525,6 +525,10 @@ class AgentSet(MutableSet, Sequence):
         """
         del self._agents[agent]
 
+    def _from_iterable(self, it: Iterable[Agent]) -> AgentSet:
+        """Build the result of a set operation (``|``, ``&``, ``-``, ``^``) with this set's generator."""
+        return AgentSet(it, random=self.random)
+
     def __getstate__(self):
         """Retrieve the state of the AgentSet for serialization.
 
